@@ -68,6 +68,11 @@ static int no_children (const void *v) {
 #define WAIT_FOR_NO_CHILDREN(pred_, n_) nsync_mu_wait (&(n_)->note_mu, &pred_, (n_), NULL)
 #define WAKEUP_NO_CHILDREN(n_) do { } while (0)
 
+/* Return whether no thread is disconnecting *n from its parent.  Assumes n->note_mu held. */
+static int not_disconnecting (const void *v) {
+	return (((nsync_note)v)->disconnecting == 0);
+}
+
 /*
 // These lines can be used in place of those above if conditional critical
 // sections have been removed from the source.
@@ -117,6 +122,15 @@ static void note_notify_child (nsync_note n, nsync_note parent) {
 static void notify (nsync_note n) {
 	nsync_time t;
 	nsync_mu_lock (&n->note_mu);
+	/* At most one thread at a time may be disconnecting *n from its parent.
+	   n->disconnecting!=0 keeps the parent from disconnecting *n, and so from
+	   being freed, while the disconnecting thread has released n->note_mu in
+	   order to acquire the parent's lock.  A second notifier of *n must not
+	   complete the disconnection in that window:  the parent could then be
+	   freed before the first thread locks it.  So wait until no other
+	   disconnection of *n is in progress; *n will then normally be found
+	   already notified.  */
+	nsync_mu_wait (&n->note_mu, &not_disconnecting, n, NULL);
 	t = NOTIFIED_TIME (n);
 	if (nsync_time_cmp (t, nsync_time_zero) > 0) {
 		nsync_note parent;
